@@ -260,14 +260,10 @@ def clause3_disclosure(ctx, P):
     g_call = _has_access_gate(e_pred, p_pred, "call_groups")
 
     def what_is(atom, pol, k):
-        if atom[0] == "cmp" and atom[2][0] == "param" and atom[2][1] == what_idx and atom[3] == ("const", k):
-            return (atom[1] == "eq" and pol) or (atom[1] == "ne" and not pol)
-        return False
+        return Q.const_relation(atom, pol, lambda t: t[0] == "param" and t[1] == what_idx, k) is True
 
     def what_not(atom, pol, k):
-        if atom[0] == "cmp" and atom[2][0] == "param" and atom[2][1] == what_idx and atom[3] == ("const", k):
-            return (atom[1] == "eq" and not pol) or (atom[1] == "ne" and pol)
-        return False
+        return Q.const_relation(atom, pol, lambda t: t[0] == "param" and t[1] == what_idx, k) is False
     for site in route_sites:
         bad = None
         npaths = 0
